@@ -121,7 +121,8 @@ def run(ctx):
             Vector([1, True, 2])]
     emptied = Vector([1, 2]); del emptied[:]
     boolfirst = Vector([1, True]); del boolfirst[0]
-    vecs += [emptied, boolfirst]
+    boolfirst2 = Vector([1, True, 2]); del boolfirst2[0]
+    vecs += [emptied, boolfirst, boolfirst2]
 
     def vobs(v):
         return ([(type(x).__name__, x) for x in v], v.units, v._value_type.__name__, list(v.extended_properties.items()))
